@@ -220,11 +220,17 @@ def check_table(m, phase, fe, cfg, report):
     slack = 1e-4 * Ts
     eig_floor = -1e-7 * Ts ** 2
     lo_exist, hi_exist = ph.Tlo - slack, ph.Thi + slack
-    # ---- sortedness -------------------------------------------------------------------
-    n += 1
+    # ---- sortedness, no two nodes a few ulp apart ---------------------------------------
+    n += 2
     if not np.all(np.diff(T) > 0):
         report("table-not-sorted", "tabulated temperatures are not strictly increasing",
                dict(T=T.tolist()[:20]))
+    elif len(T) > 1 and float(np.min(np.diff(T))) <= 1e-12 * cfg["Tstart"]:
+        k = int(np.argmin(np.diff(T)))
+        report("duplicate-node-degrades-interpolation",
+               "table nodes %r and %r are %.3g apart (RK45's final micro-step onto the end of "
+               "the range stored as a separate node): the spline is ill-conditioned at that "
+               "end" % (T[k], T[k + 1], T[k + 1] - T[k]), dict(T=float(T[k])))
     # ---- every tabulated point --------------------------------------------------------
     beyond_min, beyond_other, beyond_trans = [], [], []
     worst = dict(grad=0.0, field=0.0, veff=0.0)
@@ -752,11 +758,11 @@ Goal let st' := tail L%(k)d %(dT)s %(cm)s %(cM)s %(st0)s in
 Proof.
   intros st'.
   assert (Lm : lmin L%(k)d = %(M)s).
-  { apply lmin_is; [unfold L%(k)d; repeat (first [left; reflexivity|right])
-                   |unfold L%(k)d; repeat constructor; lra]. }
+  { apply lmin_is; [unfold L%(k)d; do %(iM)d right; left; reflexivity
+                   |unfold L%(k)d; repeat (apply Forall_cons; [lra|]); apply Forall_nil]. }
   assert (LM : lmax L%(k)d = %(N)s).
-  { apply lmax_is; [unfold L%(k)d; repeat (first [left; reflexivity|right])
-                   |unfold L%(k)d; repeat constructor; lra]. }
+  { apply lmax_is; [unfold L%(k)d; do %(iN)d right; left; reflexivity
+                   |unfold L%(k)d; repeat (apply Forall_cons; [lra|]); apply Forall_nil]. }
   destruct (tail_values L%(k)d %(dT)s %(cm)s %(cM)s %(st0)s) as [A [B [C D]]].
   fold st' in A, B, C, D. rewrite A, B, C, D, Lm, LM.
   unfold clamp_TMin, clamp_TMax. cbn [minT maxT minFlag maxFlag orb].
@@ -781,7 +787,7 @@ Qed.
     return goal % dict(
         k=k, lst=lst, dT=q(Fraction(dT)), cm=cm, cM=cM, st0=st0, wmin=q(want_min),
         wmax=q(want_max), fa=str(bool(after[0][1])).lower(), fb=str(bool(after[1][1])).lower(),
-        M=q(M), N=q(N),
+        M=q(M), N=q(N), iM=L.index(M), iN=L.index(N),
         pa=flagproof(bool(after[0][1]), bool(prior[0][1]), "Rltb_true", "Rltb_false"),
         pb=flagproof(bool(after[1][1]), bool(prior[1][1]), "Rltb_true", "Rltb_false")), \
         (float(want_min), float(want_max), fa, fb)
@@ -839,6 +845,15 @@ def book_file(ctx, rng, count):
 
 # =====================================================================================
 
+# inputs that exposed defects which are now fixed in the code base (must stay quiet)
+DIRECTED = [
+    # 2ac5871: two table nodes ~1e-16 apart at the lower end, spline oscillation (1.3e-6 rel.)
+    {"model": {"model": "twofield", "theta": 0.3, "unit": 0.001}, "phase": "B",
+     "Tstart": 0.10400000000000001, "TMin": 0.092, "TMax": 0.11520000000000001,
+     "dT": 0.00048, "rTol": 1e-06, "paranoid": False},
+]
+
+
 def run(ctx):
     ok = True
     try:
@@ -884,6 +899,12 @@ def run(ctx):
                 run_trace_case(ctx, dict(k["replay"]), "known")
             except Exception as ex:
                 ctx.log("replay of known finding raised", traceback.format_exc())
+    for cfg in DIRECTED:
+        try:
+            run_trace_case(ctx, dict(cfg), "directed")
+        except Exception as ex:
+            ctx.log("directed case raised", traceback.format_exc())
+            ctx.broken.append("harness: directed case raised %r" % ex)
     cases = q1_cfgs(rng, ctx.n(24, 400), units) + tf_cfgs(rng, ctx.n(24, 400), units)
     for cfg in cases:
         try:
